@@ -798,8 +798,12 @@ class Background2D:
         background rms map check image in SourceExtractor.
         """
         data = self._interpolate_grid(self._bkgrms_stats)
+        # filter before deleting the statistics so that a failure in the
+        # filter leaves the object in a state where the request can be
+        # repeated
+        data = self._filter_grid(data)
         self._bkgrms_stats = None  # delete to save memory
-        return self._apply_units(self._filter_grid(data))
+        return self._apply_units(data)
 
     @property
     @deprecated('2.0.0')
